@@ -251,6 +251,27 @@ def _termination(ck, P, cfg):
         ck.holds("C10.5", "count", dec.where, "counted down once, only when the marker is negative and the predicate holds; the marker then records the event time (>= 0)", cfg)
     else:
         ck.violated("C10.5", "count", dec.where, "the pending-LP counter can be decremented for an LP already counted, or without its predicate holding", cfg)
+    # the counter's test: the run stops exactly when the LAST pending LP has just been counted
+    ifs = dec.parent
+    while ifs is not None and ifs.k != "IfStmt":
+        ifs = ifs.parent
+    if ifs is not None:
+        kids = [c for c in ifs.children if c.k != "Null"]
+        core, neg = X.strip_bool(kids[0])
+        if core is dec or (core.k == "UnaryOperator" and core.op == "--"):
+            bad = None
+            for v in (1, 2, 3):
+                tested = v if dec.postfix else v - 1
+                stops = (tested != 0) ^ neg
+                if stops != (v - 1 == 0) and bad is None:
+                    bad = (v, stops)
+            if bad:
+                ck.violated("C10.5", "count-to-zero", dec.where, "with %d pending LP(s) left when one more terminates, the run %s: the test `%s` is true for the wrong count (it must be true exactly when "
+                            "the counter becomes 0)" % (bad[0], "stops" if bad[1] else "goes on", X.show(kids[0])), cfg)
+            else:
+                ck.holds("C10.5", "count-to-zero", dec.where, "`%s` is true exactly when the last pending LP has been counted" % X.show(kids[0]), cfg)
+        else:
+            ck.inconclusive("C10.5", "count-to-zero", ifs.where, "test of the pending-LP counter not recognised: %s" % X.show(kids[0])[:60], cfg)
     # stop conditions
     brk = [b for b in f.walk() if b.k == "BreakStmt"]
     kinds = set()
